@@ -4,6 +4,7 @@ mod c02;
 mod c03;
 mod c04;
 mod c10;
+mod c11;
 
 use vh::report::Args;
 
@@ -13,6 +14,8 @@ fn main() {
         "c01" => c01::run(&args),
         "c02" => c02::run(&args),
         "c03" => c03::run(&args),
+        "c11" => c11::run(&args),
+        "c11-worker" => c11::worker(&args),
         "c10" => c10::run(&args),
         "c04" => c04::run(&args),
         other => {
